@@ -13,6 +13,7 @@ func zzC06FS() *zzFS {
 	return newZZFS(map[string]string{
 		"card.vuego": `<div class="card"><header><slot name="h">FB-H</slot></header><main><slot>FB-D</slot></main><footer><slot name="f" :x="n" :y="m">FB-F</slot></footer></div>`,
 		"list.vuego": `<ul><li v-for="it in items"><slot :item="it" :pos="it">FB-{{ it }}</slot></li></ul>`,
+		"panel.vuego": `<div class="panel"><header><slot name="h" :outer="heading" :k="heading">FB-H-{{ outer }}</slot></header><main><slot>FB-D-{{ outer }}</slot></main><footer>{{ outer }}|<slot name="f">FB-F-{{ outer }}</slot></footer></div>`,
 		"rows.vuego": `<ul><li v-for="it in rows"><slot :id="it.id" :label="it.label">fb</slot></li></ul>`,
 		"wrap.vuego": `<section class="wrap"><template include="card.vuego"><template v-slot:h>INNER-H</template></template><slot>FB-WRAP</slot></section>`,
 	})
@@ -60,12 +61,8 @@ func zzC06Include(dflt, hdr, ftr int, tag string) (src string, wantD, wantH, wan
 }
 
 func zzFlat(s string) string {
-	// drop indentation and newlines introduced by the serialiser
-	var sb strings.Builder
-	for _, line := range strings.Split(s, "\n") {
-		sb.WriteString(strings.TrimSpace(line))
-	}
-	return sb.String()
+	// white space introduced by the serialiser is insignificant
+	return strings.Join(strings.Fields(s), "")
 }
 
 // VerifC06_Slots: every subset of supplied slots in every form, dynamic
@@ -101,13 +98,13 @@ func VerifC06_Slots() {
 	}
 	want += `</div>`
 	zzNote("want", want)
-	zzAssert(flat == want, "C06.slots.content-per-slot-and-instance")
+	zzAssert(flat == zzFlat(want), "C06.slots.content-per-slot-and-instance")
 }
 
 // VerifC06_Loop: a slot inside a loop is filled once per iteration with that
 // iteration's props; a component nested in a component keeps its own slots.
 func VerifC06_Loop() {
-	mode := zzChoice("mode", 5)
+	mode := zzChoice("mode", 6)
 	var body, want string
 	data := map[string]any{"outer": "OUT", "items": []string{"a", "b"}, "nv": 9}
 	switch mode {
@@ -120,6 +117,34 @@ func VerifC06_Loop() {
 	case 2: // nested component: the inner card gets INNER-H, the wrapper's default slot gets the includer's content
 		body = `<template include="wrap.vuego"><em>W-{{ outer }}</em></template>`
 		want = `<section class="wrap"><div class="card"><header>INNER-H</header><main>FB-D</main><footer>FB-F</footer></div><em>W-OUT</em></section>`
+	case 5: // a slot prop named like an includer variable is visible in that slot's content only
+		hForm := zzChoice("hform", 3)
+		dForm := zzChoice("dform", 3)
+		fForm := zzChoice("fform", 2)
+		body = `<template include="panel.vuego" heading="IN">`
+		wantH, wantD, wantF := "FB-H-OUT", "FB-D-OUT", "FB-F-OUT"
+		switch hForm {
+		case 1:
+			body += `<template #h>[{{ outer }}]</template>`
+			wantH = "[IN]" // props spread into the content of this slot
+		case 2:
+			body += `<template #h="p">[{{ p.outer }}/{{ outer }}]</template>`
+			wantH = "[IN/OUT]"
+		}
+		switch dForm {
+		case 1:
+			body += `<p>{{ outer }}</p>`
+			wantD = "<p>OUT</p>"
+		case 2:
+			body += `<template v-slot><p>{{ outer }}</p></template>`
+			wantD = "<p>OUT</p>"
+		}
+		if fForm == 1 {
+			body += `<template #f><u>{{ outer }}{{ k }}</u></template>`
+			wantF = "<u>OUT</u>"
+		}
+		body += `</template>`
+		want = `<div class="panel"><header>` + wantH + `</header><main>` + wantD + `</main><footer>OUT|` + wantF + `</footer></div>`
 	case 4: // scoped props that are present for some iterations and absent for others
 		var rows []any
 		want = `<ul>`
@@ -151,5 +176,5 @@ func VerifC06_Loop() {
 	zzNote("out", flat)
 	zzNote("want", want)
 	zzAssert(err == nil, "C06.loop.render-error")
-	zzAssert(flat == want, "C06.loop.per-iteration-and-nesting")
+	zzAssert(flat == zzFlat(want), "C06.loop.per-iteration-and-nesting")
 }
